@@ -38,10 +38,13 @@ func NewStats() *Stats {
 	}
 }
 
-func (s *Stats) BeginRun()             { s.runNontrivial = false }
-func (s *Stats) Fault(kind string)     { s.Faults[kind]++; s.runNontrivial = true }
-func (s *Stats) FaultN(k string, n int) { s.Faults[k] += uint64(n); s.runNontrivial = s.runNontrivial || n > 0 }
-func (s *Stats) Probe(name string)     { s.Probes[name]++ }
+func (s *Stats) BeginRun()         { s.runNontrivial = false }
+func (s *Stats) Fault(kind string) { s.Faults[kind]++; s.runNontrivial = true }
+func (s *Stats) FaultN(k string, n int) {
+	s.Faults[k] += uint64(n)
+	s.runNontrivial = s.runNontrivial || n > 0
+}
+func (s *Stats) Probe(name string) { s.Probes[name]++ }
 func (s *Stats) ProbeIf(c bool, name string) {
 	if c {
 		s.Probes[name]++
